@@ -23,7 +23,7 @@ def plan(tier, seed):
     no = 0
     nrand = 16 if tier == "quick" else 1600
     for fam in ("fq", "fr"):
-        for part in ("grid_bin", "grid_un", "pow", "repr", "repr_shift"):
+        for part in ("grid_bin", "grid_un", "pow", "repr", "repr_shift", "related"):
             shards.append(dict(no=no, fam=fam, part=part))
             no += 1
         for i in range(nrand // 2):
@@ -75,6 +75,26 @@ def run_shard(shard, tier, seed, wd, res):
                 + [m - 1 - rng.getrandbits(rng.randrange(1, 60)) for _ in range(60)]:
             if 0 <= v < (1 << width):
                 s.op(fam + ".from_repr", rp(v))
+    elif part == "related":
+        # binary operations on RELATED operands (the second one computed by the library): negative, inverse, square,
+        # double, square root, Frobenius image (identity on a prime field); results that are 0 / 1 by construction fed on
+        vals = B + [rng.randrange(m) for _ in range(100 if tier == "quick" else 2000)]
+        for a in vals:
+            ta = fe(a)
+            rel = [s.op(fam + ".neg", ta), s.op(fam + ".sqr", ta), s.op(fam + ".dbl", ta), s.op(fam + ".frob", ta, V.w(1))]
+            if a:
+                rel.append(s.op(fam + ".inv", ta))
+            if pow(a, (m - 1) // 2, m) == 1:
+                rel.append(s.op(fam + ".sqrt", ta))
+            for b in rel:
+                for op in ("add", "sub", "mul", "eq", "ne", "cmp"):
+                    s.op("%s.%s" % (fam, op), ta, b)
+                s.op(fam + ".sub", b, ta)
+            z = s.op(fam + ".add", ta, rel[0])
+            s.op(fam + ".inv", z); s.op(fam + ".is_zero", z); s.op(fam + ".mul", z, ta); s.op(fam + ".sqrt", z); s.op(fam + ".into_repr", z)
+            if a:
+                o = s.op(fam + ".mul", ta, rel[4])
+                s.op(fam + ".inv", o); s.op(fam + ".mul", o, ta); s.op(fam + ".sqrt", o); s.op(fam + ".into_repr", o)
     elif part == "pow":
         bases = [0, 1, 2, m - 1, m - 2, (m - 1) // 2] + [rng.randrange(m) for _ in range(20)]
         exps = [[], [0], [1], [2], [0, 0, 0], [0, 1], [(1 << 64) - 1] * 12]
